@@ -630,6 +630,29 @@ func runC08(w *World, c *Check) {
 			}
 		}
 	}
+	// the default salt is realm ‖ name components, for every principal (RFC 4120 §4: "the
+	// concatenation of the principal's realm and name components, in order, with no separators")
+	if fn := w.Func("types.(PrincipalName).GetSalt"); fn == nil {
+		c.Missing("C08.salt", "types.(PrincipalName).GetSalt")
+	} else {
+		fa := NewFuncAn(w, fn)
+		ok, detail, n := true, "", 0
+		for _, x := range fa.Exits() {
+			rs := RetResults(x.Ret)
+			if len(rs) != 1 {
+				continue
+			}
+			n++
+			ps, _ := fa.BufferPlaces(rs[0])
+			detail = placesString(ps)
+			good := len(ps) == 2 && ps[0].What == substParams(fn, "realm") && ps[0].Off == "0" && fullMatch(`Σ\(recv\.NameString\[\$i\d+\]\)`, ps[1].What) && ps[1].Off == "len("+substParams(fn, "realm")+")"
+			if !good {
+				ok = false
+				break
+			}
+		}
+		c.Decide(ok && n > 0, "C08.salt", FuncKey(fn), "default-salt-layout", w.Pos(fn.Pos()), "the default salt is the realm followed by the name components in order, on every return", "a return yields "+detail)
+	}
 	ruleWeakKey(w, c, "C08.weakkey")
 }
 
